@@ -167,12 +167,15 @@ structure RocState (α : Type) where
   pts : List (α × α)
   thr : List α
 
+/-- `s0.map_or(true, |s0| (s - s0).abs() > 1e-10)`: does score `s` open a new group? -/
+def isFresh (eps : α) (s0 : Option α) (s : α) : Bool :=
+  match s0 with
+  | none => true
+  | some s0 => decide (eps < absS (s - s0))
+
 /-- one iteration of `for (s, t) in tuples` -/
 def rocStep (eps : α) (st : RocState α) (x : α × Bool) : RocState α :=
-  let fresh : Bool := match st.s0 with
-    | none => true
-    | some s0 => decide (eps < absS (x.1 - s0))
-  let st := if fresh then
+  let st := if isFresh eps st.s0 x.1 then
       { st with pts := st.pts ++ [(st.tp, st.fp)], thr := st.thr ++ [x.1], s0 := some x.1 }
     else st
   if x.2 then { st with tp := st.tp + 1 } else { st with fp := st.fp + 1 }
